@@ -63,6 +63,10 @@ pub fn zero_window_update_lost(view: &WireView, ci: usize, from_init: bool, t_fa
         if p.t >= t_fail {
             break;
         }
+        // (a datagram the transport refused never existed on the wire)
+        if !p.left_sender() {
+            continue;
+        }
         if let Some(pk) = &p.pkt {
             if pk.wnd > 0 && pk.ty != wire::ST_FIN {
                 reopen_sent = true;
@@ -524,4 +528,40 @@ pub fn unblocked_at(blocked: &[(Us, Us)], t: Us) -> Us {
             None => return t,
         }
     }
+}
+
+/// An endpoint ended with "remote was inactive for too long" while the last thing it had told its
+/// peer was that its own receive window is closed: the peer, with everything acknowledged and no
+/// zero-window probing, had nothing it was allowed to send, and the endpoint's slow reader did not
+/// re-open the window within the inactivity limit. The endpoint kills a connection whose silence it
+/// imposed itself (same design gap as the other zero-window findings: no persist timer).
+pub fn own_zero_window_outlasted_inactivity_limit(events: &[Event], view: &WireView) -> bool {
+    for e in events {
+        let (id, err) = match &e.ev {
+            Ev::Hook(librqbit_utp::verif::VerifEvent::Death { id, error: Some(err) }) => (id, err),
+            _ => continue,
+        };
+        if !err.contains("inactive") {
+            continue;
+        }
+        // the last datagram that left this endpoint for this peer before it died
+        let last = view
+            .pkts
+            .iter()
+            .filter(|p| !p.scripted && p.src == id.local && p.dst == id.remote && p.t < e.t && p.left_sender())
+            .filter(|p| p.pkt.as_ref().map(|k| k.conn_id == id.conn_id_send).unwrap_or(false))
+            .last();
+        if let Some(p) = last {
+            if let Some(k) = &p.pkt {
+                if k.wnd == 0 && k.ty != wire::ST_SYN {
+                    // and nothing reached it from the peer after that
+                    let heard = view.pkts.iter().any(|q| q.src == id.remote && q.dst == id.local && q.recvs.iter().any(|(rt, _)| *rt > p.t && *rt < e.t));
+                    if !heard {
+                        return true;
+                    }
+                }
+            }
+        }
+    }
+    false
 }
